@@ -81,7 +81,10 @@ func (x *Enc) havocAll(h Heap, reach Term) Heap {
 	if x.con != nil {
 		for _, k := range sortedKeys(x.keys) {
 			for _, tn := range x.con.HavocPreserves {
-				if strings.HasPrefix(k, "F:") && strings.Contains(k, tn+":") {
+				if (strings.HasPrefix(k, "F:") || strings.HasPrefix(k, "P:")) && strings.Contains(k, tn+":") {
+					nh.m[k] = x.hget(h, k)
+				}
+				if strings.HasPrefix(tn, "key:") && strings.HasPrefix(k, tn[4:]) {
 					nh.m[k] = x.hget(h, k)
 				}
 			}
@@ -181,6 +184,10 @@ func (x *Enc) embAddr(structT types.Type, field string, base Term) Term {
 		// injective; addresses of embedded parts lie at or above the address of the enclosing object
 		// (so parts of an object allocated during the call are themselves above the entry allocation top)
 		x.sc.assert(fmt.Sprintf("(forall ((p Int)) (! (and (= (%s (%s p)) p) (=> (> p 0) (>= (%s p) p))) :pattern ((%s p))))", inv, n, n, n))
+		// different embedded fields live at different addresses: each embedding function has its own tag
+		x.sc.declFun("embtag", []string{"Int"}, "Int")
+		x.nEmb++
+		x.sc.assert(fmt.Sprintf("(forall ((p Int)) (! (= (embtag (%s p)) %d) :pattern ((%s p))))", n, x.nEmb, n))
 	}
 	return app(n, base)
 }
